@@ -1,0 +1,157 @@
+//go:build verif
+
+package cty
+
+// Contracts on the arithmetic and comparison methods (C02: results on known operands against the
+// documented behaviour of math/big, stated over the observations bf.val / bf.inf / bf.prec; C01:
+// result shape on unknown operands; C04: marks; exact panic conditions). Comment-only file.
+//
+//@ global cty.Zero (and (is_number_ty (vty $g)) (plain $g) ((_ is box<*math/big.Float>) (cty.Value.v $g)) (> (num_ptr $g) 0) (= (num_i $g) 0) (= (num_r $g) 0.0))
+//@ global cty.PositiveInfinity (and (is_number_ty (vty $g)) (plain $g) ((_ is box<*math/big.Float>) (cty.Value.v $g)) (> (num_ptr $g) 0) (= (num_i $g) 1))
+//@ global cty.NegativeInfinity (and (is_number_ty (vty $g)) (plain $g) ((_ is box<*math/big.Float>) (cty.Value.v $g)) (> (num_ptr $g) 0) (= (num_i $g) (- 1)))
+//
+// Assumed for now (C05 / C01 range soundness are stated separately): Range needs an unmarked value,
+// numericRangeArithmetic returns a refiner, refining keeps type, marks and well-formedness and does
+// not touch a known value.
+//@ func (cty.Value).Range
+//@   trusted
+//@   requires (not (is_marked v))
+//
+//@ func (cty.ValueRange).NumberLowerBound
+//@   trusted
+//@   ensures (and (wf_deep result.0) (is_number_ty (vty result.0)) (not (is_marked result.0)) (not (is_null result.0)))
+//
+//@ func (cty.ValueRange).NumberUpperBound
+//@   trusted
+//@   ensures (and (wf_deep result.0) (is_number_ty (vty result.0)) (not (is_marked result.0)) (not (is_null result.0)))
+//
+//@ func (*cty.RefinementBuilder).NewValue
+//@   trusted
+//@   ensures (wf_marks result)
+//
+//@ func cty.numericRangeArithmetic
+//@   trusted
+//@   ensures (and (not (= result nil.Func)) (rf_numeric result))
+//
+//@ func (cty.Value).Add
+//@   tags C02 C01 C04
+//@   requires (and (wf_deep val) (wf_deep other))
+//@   let t (vty val)
+//@   let ot (vty other)
+//@   let sc (or (is_dyn_ty t) (is_dyn_ty ot) (not (is_known val)) (not (is_known other)))
+//@   let p (imax (num_p val) (num_p other))
+//@   panics[C02] (or (and (not (is_dyn_ty t)) (not (is_number_ty t))) (and (not (is_dyn_ty ot)) (not (is_number_ty ot))) (and (not sc) (or (is_null val) (is_null other) (and (not (= (num_i val) 0)) (= (num_i other) (- (num_i val)))))))
+//@   ensures[C02] type: (is_number_ty (vty result))
+//@   ensures[C02] known: (=> (not sc) (and (kn result) (= (num_p result) p) (= (num_i result) (ite (not (= (num_i val) 0)) (num_i val) (num_i other))) (=> (and (= (num_i val) 0) (= (num_i other) 0)) (= (num_r result) (rnd p (+ (num_r val) (num_r other)))))))
+//@   ensures[C01] notnull: (not (is_null result))
+//@   ensures[C04] marks_kept: (forall ((k Any)) (! (=> (or (select (marks_of val) k) (select (marks_of other) k)) (select (marks_of result) k)) :pattern ((select (marks_of result) k))))
+//@   ensures[C04] nomarks: (=> (and (not (is_marked val)) (not (is_marked other))) (not (is_marked result)))
+//@   ensures[C06] wf: (wf_deep result)
+//
+//@ func (cty.Value).Negate
+//@   tags C02 C01 C04
+//@   requires (wf_deep val)
+//@   let t (vty val)
+//@   let sc (or (is_dyn_ty t) (not (is_known val)))
+//@   panics[C02] (or (and (not (is_dyn_ty t)) (not (is_number_ty t))) (and (not sc) (is_null val)))
+//@   ensures[C02] type: (is_number_ty (vty result))
+//@   ensures[C02] known: (=> (not sc) (and (kn result) (= (num_p result) (num_p val)) (= (num_i result) (- (num_i val))) (= (num_r result) (- (num_r val)))))
+//@   ensures[C01] notnull: (not (is_null result))
+//@   ensures[C04] marks_kept: (forall ((k Any)) (! (=> (select (marks_of val) k) (select (marks_of result) k)) :pattern ((select (marks_of result) k))))
+//@   ensures[C04] nomarks: (=> (not (is_marked val)) (not (is_marked result)))
+//@   ensures[C06] wf: (wf_deep result)
+//
+//@ func (cty.Value).Subtract
+//@   tags C02 C01 C04
+//@   requires (and (wf_deep val) (wf_deep other))
+//@   let t (vty val)
+//@   let ot (vty other)
+//@   let sc (or (is_dyn_ty t) (is_dyn_ty ot) (not (is_known val)) (not (is_known other)))
+//@   let p (imax (num_p val) (num_p other))
+//@   panics[C02] (or (and (not (is_dyn_ty t)) (not (is_number_ty t))) (and (not (is_dyn_ty ot)) (not (is_number_ty ot))) (and (not sc) (or (is_null val) (is_null other) (and (not (= (num_i val) 0)) (= (num_i other) (num_i val))))))
+//@   ensures[C02] type: (is_number_ty (vty result))
+//@   ensures[C02] known: (=> (not sc) (and (kn result) (= (num_p result) p) (= (num_i result) (ite (not (= (num_i val) 0)) (num_i val) (- (num_i other)))) (=> (and (= (num_i val) 0) (= (num_i other) 0)) (= (num_r result) (rnd p (- (num_r val) (num_r other)))))))
+//@   ensures[C01] notnull: (not (is_null result))
+//@   ensures[C04] marks_kept: (forall ((k Any)) (! (=> (or (select (marks_of val) k) (select (marks_of other) k)) (select (marks_of result) k)) :pattern ((select (marks_of result) k))))
+//@   ensures[C04] nomarks: (=> (and (not (is_marked val)) (not (is_marked other))) (not (is_marked result)))
+//@   ensures[C06] wf: (wf_deep result)
+//
+// Absolute: only the known path is under contract so far (the unknown path builds a refinement: C05).
+//@ func (cty.Value).Absolute
+//@   tags C02
+//@   requires (wf_deep val)
+//@   let t (vty val)
+//@   let sc (or (is_dyn_ty t) (not (is_known val)))
+//@   may_panic
+//@   ensures[C02] type: (=> (and (not (is_marked val)) (not sc)) (is_number_ty (vty result)))
+//@   ensures[C02] known: (=> (and (not (is_marked val)) (not sc)) (and (kn result) (= (num_p result) (num_p val)) (= (num_i result) (ite (= (num_i val) 0) 0 1)) (= (num_r result) (ite (>= (num_r val) 0.0) (num_r val) (- (num_r val))))))
+//@   ensures[C06] wfm: (wf_marks result)
+//
+//@ func (cty.Value).LessThan
+//@   tags C02 C01 C04
+//@   requires (and (wf_deep val) (wf_deep other))
+//@   let t (vty val)
+//@   let ot (vty other)
+//@   let sc (or (is_dyn_ty t) (is_dyn_ty ot) (not (is_known val)) (not (is_known other)))
+//@   panics[C02] (or (and (not (is_dyn_ty t)) (not (is_number_ty t))) (and (not (is_dyn_ty ot)) (not (is_number_ty ot))) (and (not sc) (or (is_null val) (is_null other))))
+//@   ensures[C02] type: (is_bool_ty (vty result))
+//@   ensures[C02] known: (=> (not sc) (bool_payload result (bf_lt (bf_of val) (bf_of other))))
+//@   ensures[C01] notnull: (not (is_null result))
+//@   ensures[C04] marks_kept: (forall ((k Any)) (! (=> (or (select (marks_of val) k) (select (marks_of other) k)) (select (marks_of result) k)) :pattern ((select (marks_of result) k))))
+//@   ensures[C04] nomarks: (=> (and (not (is_marked val)) (not (is_marked other))) (not (is_marked result)))
+//@   ensures[C06] wf: (wf_deep result)
+//
+//@ func (cty.Value).GreaterThan
+//@   tags C02 C01 C04
+//@   requires (and (wf_deep val) (wf_deep other))
+//@   let t (vty val)
+//@   let ot (vty other)
+//@   let sc (or (is_dyn_ty t) (is_dyn_ty ot) (not (is_known val)) (not (is_known other)))
+//@   panics[C02] (or (and (not (is_dyn_ty t)) (not (is_number_ty t))) (and (not (is_dyn_ty ot)) (not (is_number_ty ot))) (and (not sc) (or (is_null val) (is_null other))))
+//@   ensures[C02] type: (is_bool_ty (vty result))
+//@   ensures[C02] known: (=> (not sc) (bool_payload result (bf_lt (bf_of other) (bf_of val))))
+//@   ensures[C01] notnull: (not (is_null result))
+//@   ensures[C04] marks_kept: (forall ((k Any)) (! (=> (or (select (marks_of val) k) (select (marks_of other) k)) (select (marks_of result) k)) :pattern ((select (marks_of result) k))))
+//@   ensures[C04] nomarks: (=> (and (not (is_marked val)) (not (is_marked other))) (not (is_marked result)))
+//@   ensures[C06] wf: (wf_deep result)
+//
+// Multiply computes at 512 bits and then narrows to the larger operand precision or the minimal
+// exact precision of the product, whichever is larger: the narrowing never rounds.
+//@ func (cty.Value).Multiply
+//@   tags C02 C01 C04
+//@   requires (and (wf_deep val) (wf_deep other))
+//@   let t (vty val)
+//@   let ot (vty other)
+//@   let sc (or (is_dyn_ty t) (is_dyn_ty ot) (not (is_known val)) (not (is_known other)))
+//@   let A (bf_of val)
+//@   let B (bf_of other)
+//@   panics[C02] (or (and (not (is_dyn_ty t)) (not (is_number_ty t))) (and (not (is_dyn_ty ot)) (not (is_number_ty ot))) (and (not sc) (or (is_null val) (is_null other) (and (bf_iszero A) (not (= (bf.inf B) 0))) (and (bf_iszero B) (not (= (bf.inf A) 0))))))
+//@   ensures[C02] type: (is_number_ty (vty result))
+//@   ensures[C02] known: (=> (not sc) (and (kn result) (>= (num_p result) (imax (bf.prec A) (bf.prec B))) (= (num_i result) (ite (and (= (bf.inf A) 0) (= (bf.inf B) 0)) 0 (* (bf_sgn A) (bf_sgn B)))) (=> (and (= (bf.inf A) 0) (= (bf.inf B) 0)) (= (num_r result) (rnd 512 (* (bf.val A) (bf.val B)))))))
+//@   ensures[C01] zero: (=> (and sc (not (is_marked val)) (not (is_marked other)) (or (= val $G<cty.Zero>) (= other $G<cty.Zero>))) (= result $G<cty.Zero>))
+//@   ensures[C01] notnull: (not (is_null result))
+//@   ensures[C04] marks_kept: (forall ((k Any)) (! (=> (or (select (marks_of val) k) (select (marks_of other) k)) (select (marks_of result) k)) :pattern ((select (marks_of result) k))))
+//@   ensures[C04] nomarks: (=> (and (not (is_marked val)) (not (is_marked other))) (not (is_marked result)))
+//@   ensures[C06] wf: (wf_deep result)
+//
+// Divide: the quotient rounded to the larger operand precision; x/0 for x != 0 is an infinity.
+// The clause divzero_sign states the documented sign (that of the receiver); math/big takes the sign
+// bit of a negative zero divisor into account, which is a listed finding.
+//@ func (cty.Value).Divide
+//@   tags C02 C01 C04
+//@   requires (and (wf_deep val) (wf_deep other))
+//@   let t (vty val)
+//@   let ot (vty other)
+//@   let sc (or (is_dyn_ty t) (is_dyn_ty ot) (not (is_known val)) (not (is_known other)))
+//@   let A (bf_of val)
+//@   let B (bf_of other)
+//@   let p (imax (bf.prec A) (bf.prec B))
+//@   panics[C02] (or (and (not (is_dyn_ty t)) (not (is_number_ty t))) (and (not (is_dyn_ty ot)) (not (is_number_ty ot))) (and (not sc) (or (is_null val) (is_null other) (and (bf_iszero A) (bf_iszero B)) (and (not (= (bf.inf A) 0)) (not (= (bf.inf B) 0))))))
+//@   ensures[C02] type: (is_number_ty (vty result))
+//@   ensures[C02] known: (=> (not sc) (and (kn result) (= (num_p result) p) (=> (and (= (bf.inf A) 0) (= (bf.inf B) 0) (not (bf_iszero B))) (and (= (num_i result) 0) (= (num_r result) (rnd p (/ (bf.val A) (bf.val B))))))))
+//@   ensures[C02] divzero_inf: (=> (and (not sc) (bf_iszero B)) (not (= (num_i result) 0)))
+//@   ensures[C02] divzero_sign: (=> (and (not sc) (bf_iszero B) (= (bf.inf A) 0)) (= (num_i result) (r_sign (bf.val A))))
+//@   ensures[C01] notnull: (not (is_null result))
+//@   ensures[C04] marks_kept: (forall ((k Any)) (! (=> (or (select (marks_of val) k) (select (marks_of other) k)) (select (marks_of result) k)) :pattern ((select (marks_of result) k))))
+//@   ensures[C04] nomarks: (=> (and (not (is_marked val)) (not (is_marked other))) (not (is_marked result)))
+//@   ensures[C06] wf: (wf_deep result)
